@@ -244,7 +244,8 @@ Section Sound.
   Variable apply : frames -> callback.
   Notation evalE := (evalE release binop_impl apply).
 
-  Hypothesis Hbin_ext : forall cb cb' op l r st, cb_lf_equiv cb cb' -> lf l = true -> lf r = true ->
+  Hypothesis Hbin_ext : forall cb cb' op l r st, cb_lf_equiv cb cb' -> cb_lf_closed cb ->
+    lf l = true -> lf r = true ->
     binop_impl cb op l r st = binop_impl cb' op l r st.
   Hypothesis Hbin_lf : forall cb op l r st v st', cb_lf_closed cb -> lf l = true -> lf r = true ->
     binop_impl cb op l r st = (Ok v, st') -> lf v = true.
@@ -666,7 +667,7 @@ Section Sound.
       destruct r as [lv| | | |]; try (fin; discriminate).
       destruct (proj1 IHe2 Hf2 L1 L2 m bound st1 HE HV2) as (r2 & st2 & E3 & E4 & Hlf2). rewrite E3, E4.
       destruct r2 as [rv| | | |]; try (fin; discriminate).
-      rewrite (Hbin_ext (apply (F1 L1)) (apply (F2 L2)) op lv rv st2 (Happ_ext _ _) (Hlf lv eq_refl) (Hlf2 rv eq_refl)).
+      rewrite (Hbin_ext (apply (F1 L1)) (apply (F2 L2)) op lv rv st2 (Happ_ext _ _) (Happ_lf _) (Hlf lv eq_refl) (Hlf2 rv eq_refl)).
       destruct (binop_impl (apply (F2 L2)) op lv rv st2) as [res st3] eqn:EB.
       fin. intros v E; subst. exact (Hbin_lf (apply (F2 L2)) op lv rv st2 v st3 (Happ_lf _) (Hlf lv eq_refl) (Hlf2 rv eq_refl) EB).
     - (* unary operator *)
@@ -742,11 +743,11 @@ Section Top.
 
   (* what is assumed of the operator / built-in implementations *)
   Definition impl_lf_respecting : Prop :=
-    (forall cb cb' op l r st, cb_lf_equiv cb cb' -> lf l = true -> lf r = true ->
+    (forall cb cb' op l r st, cb_lf_equiv cb cb' -> cb_lf_closed cb -> lf l = true -> lf r = true ->
        binop_impl cb op l r st = binop_impl cb' op l r st) /\
     (forall cb op l r st v st', cb_lf_closed cb -> lf l = true -> lf r = true ->
        binop_impl cb op l r st = (Ok v, st') -> lf v = true) /\
-    (forall cb cb' b args st, cb_lf_equiv cb cb' -> lfs args = true ->
+    (forall cb cb' b args st, cb_lf_equiv cb cb' -> cb_lf_closed cb -> lfs args = true ->
        builtin_impl cb b args st = builtin_impl cb' b args st) /\
     (forall cb b args st v st', cb_lf_closed cb -> lfs args = true ->
        builtin_impl cb b args st = (Ok v, st') -> lf v = true).
@@ -943,12 +944,12 @@ Definition ex_builtin (cb : callback) (b : builtin) (args : list value) (st : st
 Lemma impl_lf_respecting_example : impl_lf_respecting ex_binop ex_builtin.
 Proof.
   repeat split.
-  - intros cb cb' op l r st H Hl Hr. destruct op; try reflexivity.
+  - intros cb cb' op l r st H _ Hl Hr. destruct op; try reflexivity.
     cbn. apply H; auto. cbn. now rewrite Hl.
   - intros cb op l r st v st' H Hl Hr E. destruct op; try discriminate.
     + destruct l; try discriminate. destruct r; try discriminate. inversion E. reflexivity.
     + cbn in E. eapply H; eauto. cbn. now rewrite Hl.
-  - intros cb cb' b args st H Ha. destruct args as [|x [|f [|? ?]]]; try reflexivity.
+  - intros cb cb' b args st H _ Ha. destruct args as [|x [|f [|? ?]]]; try reflexivity.
     cbn in *. apply andb_prop in Ha as [A B]. apply andb_prop in B as [B _]. apply H; auto. cbn. now rewrite A.
   - intros cb b args st v st' H Ha E. destruct args as [|x [|f [|? ?]]]; try discriminate.
     cbn in *. apply andb_prop in Ha as [A B]. apply andb_prop in B as [B _]. eapply H; eauto. cbn. now rewrite A.
